@@ -161,6 +161,9 @@ pub struct ExecCase {
     /// Some(m): the machine is a compute child whose (read-only) parent memory is `m`.
     #[serde(default)]
     pub parent: Option<Vec<i64>>,
+    /// Start with the machine's `halt` flag set (only the C14 execution-equivalence check uses this).
+    #[serde(default)]
+    pub halt: bool,
 }
 
 impl ExecCase {
@@ -170,12 +173,14 @@ impl ExecCase {
         if let Some(pm) = &self.parent {
             vm.parent_memory = vec![Arc::new(Memory::try_from(pm.clone()).ok()?)];
         }
+        vm.halt = self.halt;
         Some(vm)
     }
 
     pub fn simple(prog: Vec<MOp>) -> Self {
         ExecCase {
             parent: None,
+            halt: false,
             prog,
             init: MState::default(),
             solutions: vec![MSolution::default()],
